@@ -205,8 +205,95 @@ def seeds_shard(tier):
     return tally
 
 
+def reconfig_shard(enc_kind, tier, only_comp=None, only_src_steps=None):
+    """The configuration may also be reached through the public setters (dt, steps, refrac, frequency): from every source
+    configuration, assign only the attributes that differ from the target - in every order - and require the getters and, under
+    every answer sequence, the train to equal those of an encoder constructed with the target configuration."""
+    tally = Tally()
+    L = 2 if tier == "quick" else 3
+    env = Env()
+    env.install()
+    try:
+        if enc_kind == "exp":
+            space = [dict(steps=st, dt=dt, refrac=rf, frequency=fq) for st in (4, 6) for dt in (1.0, 0.5) for rf in (None, 1.0, 2.0) for fq in (200.0, 400.0)]
+            alphabet = EXP_ALPHABET
+            comps = (False, True)
+        else:
+            space = [dict(steps=st, dt=dt, frequency=fq) for st in (4, 6) for dt in (1.0, 0.5) for fq in (200.0, 400.0)]
+            alphabet = POIS_ALPHABET if enc_kind == "interval" else BERN_ALPHABET
+            comps = (None,)
+            L = L + 1
+
+        def build(cfg, comp):
+            if enc_kind == "exp":
+                return HomogeneousPoissonEncoder(cfg["steps"], cfg["dt"], cfg["frequency"], refrac=cfg["refrac"], compensate=comp)
+            if enc_kind == "interval":
+                return PoissonIntervalEncoder(cfg["steps"], cfg["dt"], cfg["frequency"])
+            return HomogeneousPoissonApproxEncoder(cfg["steps"], cfg["dt"], cfg["frequency"])
+
+        x = torch.tensor([0.5, 1.0, 0.0])
+        seqs = list(itertools.product(alphabet, repeat=L))
+        for comp in comps:
+            if only_comp is not None and comp != only_comp:
+                continue
+            for src, dst in itertools.product(space, space):
+                if only_src_steps is not None and src["steps"] != only_src_steps:
+                    continue
+                changed = [k for k in dst if dst[k] != src[k]]
+                if not changed:
+                    continue
+                ref = build(dst, comp)
+                for order in itertools.permutations(changed):
+                    case = {"encoder": enc_kind, "constructed_with": src, "compensate": comp, "setters": [[k, dst[k]] for k in order]}
+                    tally.add("evaluations")
+                    try:
+                        enc = build(src, comp)
+                        for k in order:
+                            setattr(enc, k, dst[k])
+                    except Exception as ex:
+                        tally.violation(f"exception:{enc_kind}:set-{k}:{type(ex).__name__}", case, f"{k}={dst[k]!r} raised {type(ex).__name__}: {ex}", None, repr(ex))
+                        continue
+                    want = {"steps": dst["steps"], "dt": dst["dt"], "frequency": dst["frequency"]}
+                    if enc_kind == "exp":
+                        want["refrac"] = dst["dt"] if dst["refrac"] is None else dst["refrac"]
+                    got = {k: getattr(enc, k) for k in want}
+                    if got != want:
+                        bad = [k for k in want if got[k] != want[k]]
+                        tally.violation(f"{enc_kind}:reconfigured:getter:{bad[0]}", case, f"after the setters the encoder reports {got}, configured {want}", want, got)
+                        continue
+                    gap = 1 if enc_kind != "exp" else max(1, math.ceil(want["refrac"] / want["dt"]))
+                    ok = True
+                    for online in (False, True):
+                        for seq in seqs:
+                            outs = []
+                            for e in (enc, ref):
+                                env.seq, env.ptr = seq, 0
+                                o = e(x.clone(), online=online)
+                                outs.append(torch.stack([s.clone() for s in o]) if online else o)
+                            c2 = {**case, "online": online, "answers": list(seq)}
+                            if outs[0].shape != outs[1].shape or not torch.equal(outs[0], outs[1]):
+                                tally.violation(f"{enc_kind}:reconfigured:train-differs:{order[-1]}", c2, "the train differs from that of an encoder constructed with the "
+                                                "same configuration under the same draws", outs[1].int().tolist(), outs[0].int().tolist())
+                                ok = False
+                                break
+                            check_train(tally, c2, outs[0], want["steps"], (3,), x.tolist(), gap, f"{enc_kind}:reconfigured")
+                            if int(outs[0].sum()) >= 2:
+                                tally.mark("nontrivial", ("reconf", enc_kind, comp, tuple(src.items()), order, online, seq))
+                        if not ok:
+                            break
+    finally:
+        env.remove()
+    tally.sample({"part": "reconfiguration through setters", "encoder": enc_kind, "configurations": len(space), "answer_sequence_length": L})
+    return tally
+
+
 def run(rep):
     jobs = [(seeds_shard, (rep.tier,))]
+    for comp in (False, True):
+        for st in (4, 6):
+            jobs.append((reconfig_shard, ("exp", rep.tier, comp, st)))
+    for enc_kind in ("interval", "bern"):
+        jobs.append((reconfig_shard, (enc_kind, rep.tier)))
     for enc_kind in ("exp", "interval", "bern"):
         for dt in (1.0, 0.5):
             for steps in (1, 4, 6):
@@ -218,6 +305,8 @@ def run(rep):
         "answer alphabets: exponential draws {1e-6,0.5,1,3}, poisson counts {0,1,2,5}, bernoulli {0,1}; all sequences of length 4 (quick) / "
         "6 (thorough), consumed cyclically in draw order; an exponential draw of exactly 0.0 is outside the alphabet",
         "refractory periods are multiples of dt; compensated configurations restricted to frequency*refrac < 1000 (the documented domain)",
+        "reconfiguration: steps {4,6} x dt {1,.5} x refrac {None,1,2} x frequency {200,400} reached from every other such configuration by assigning "
+        "only the differing attributes in every order; trains compared with a constructed encoder under every answer sequence of length 2 (3)",
         "'for all seeds' is claimed only through the answer enumeration at these sizes plus seeds 0..31 (quick) / 0..127 (thorough) of the real generator",
     ]
     cov = {
